@@ -84,6 +84,42 @@ def program_local(tasks, frac, shared):
     return "\n".join(out) + "\n"
 
 
+def program_oneshots(tasks, frac):
+    """all one-shot tasks of the configuration are ONE closure object that captures a parameter of the function it is
+    made in, scheduled once per task at that task's time (several pending schedulings of one closure at different
+    times: every scheduling fires, the closure stays usable until the last one has fired); periodic tasks keep their own
+    letrec closure"""
+    out = [f"let c{i} = 0" for i in range(1, len(tasks) + 1)]
+    one = next(i for i, t in enumerate(tasks, 1) if t["period"] == 0)
+    out.append("fn setup(inc){")
+    out.append(f"  let shot = | | {{\n    c{one} = c{one} + inc\n  }}")
+    sched = []
+    for i, t in enumerate(tasks, 1):
+        when = f"{t['delay']}.{'7' if i % 2 == 1 else '2'}" if frac else str(t["delay"])
+        if t["period"] > 0:
+            out.append(f"  letrec k{i} = | | {{\n    c{i} = c{i} + inc\n    k{i}@(now + {t['period']})\n  }}")
+            sched.append(f"  k{i}@{when}")
+        else:
+            sched.append(f"  shot@{when}")
+    out += sched
+    out.append("}")
+    out.append("setup(1)")
+    total = " + ".join(f"c{i}*{100 ** (i - 1)}" for i in range(1, len(tasks) + 1))
+    out.append(f"fn dsp(){{\n  {total}\n}}")
+    return "\n".join(out) + "\n"
+
+
+def expect_oneshots(tasks, outs):
+    one = next(i for i, t in enumerate(tasks) if t["period"] == 0)
+    rows = []
+    for row in outs:
+        merged = [0] * len(row)
+        for i, c in enumerate(row):
+            merged[one if tasks[i]["period"] == 0 else i] += c
+        rows.append(sum(c * 100 ** i for i, c in enumerate(merged)))
+    return rows
+
+
 def expect_shared(tasks, outs):
     first, rows = {}, []
     owner = []
@@ -146,6 +182,42 @@ def run(tier):
                     reqs.append({"id": len(reqs), "src": program_local(tasks, frac, True), "n": len(outs), "backends": ["vm", "wasm"],
                                  "sched": True})
                     meta.append((tasks, expect_shared(tasks, outs), frac))
+                if sum(1 for t in tasks if t["period"] == 0) >= 2:
+                    reqs.append({"id": len(reqs), "src": program_oneshots(tasks, frac), "n": len(outs), "backends": ["vm", "wasm"],
+                                 "sched": True})
+                    meta.append((tasks, expect_oneshots(tasks, outs), frac))
+    # the model numbers a multiset of task definitions once (in sorted order): the order in which a program makes its
+    # scheduling calls is not part of a configuration.  For one-shot tasks scheduled from global scope, 2-4 of them with
+    # times that partly coincide, every order of the calls is replayed: the counters do not depend on it.
+    import itertools
+    pb = {"NSamples": 8, "MaxTasks": 3 if tier == "quick" else 4, "Delays": "{2, 3, 5}" if tier == "quick" else "{2, 3, 5, 7}",
+          "Periods": "{0}", "DspAt": "{}"}
+    pcfg = {}
+    for be in ("vm", "wasm"):
+        r = vlib.run_tlc("MCScheduler", cfg(f"MCScheduler_perm_{be}_run", be, pb, "TRUE"), timeout=1200, workers=12)
+        chk.tlc(r, f"Scheduler[{be}, one-shots from main, up to {pb['MaxTasks']} tasks]")
+        if r.violation:
+            chk.violation(f"model: {r.violation} for the {be} mechanism (one-shot configurations)", {"tlc": vlib.tlc_error_trace(r.stdout)},
+                          key=f"model-perm-{be}-" + r.violation.replace(" ", "_"))
+        for rep in r.tagged["REPLAY"]:
+            pcfg.setdefault(json.dumps(rep["cfg"], sort_keys=True), rep["outs"])
+    nperm = 0
+    for k, outs in pcfg.items():
+        tasks = json.loads(k)
+        if len(tasks) < 2:
+            continue
+        seen = set()
+        for perm in itertools.permutations(range(len(tasks))):
+            sig = tuple(tasks[i]["delay"] for i in perm)
+            if sig in seen:
+                continue
+            seen.add(sig)
+            ptasks = [tasks[i] for i in perm]
+            pouts = [[row[i] for i in perm] for row in outs]
+            reqs.append({"id": len(reqs), "src": program(ptasks, False), "n": len(outs), "backends": ["vm", "wasm"], "sched": True})
+            meta.append((ptasks, expect(pouts), False))
+            nperm += 1
+    chk.cov["call_order_programs"] = nperm
     res = vlib.run_harness("run", reqs, timeout_per_req=20)
     distinct = set()
     for req, out, crash in res:
